@@ -246,7 +246,8 @@ func ProofsSigAll(proofs cashu.Proofs) bool {
 	for _, proof := range proofs {
 		secret, err := nut10.DeserializeSecret(proof.Secret)
 		if err != nil {
-			return false
+			// not a NUT-10 secret, keep looking at the other proofs
+			continue
 		}
 
 		if IsSigAll(secret) {
